@@ -42,6 +42,7 @@ func fmtID(format string) string {
 
 // RegSpec describes one registration; Dev holds named deviations from honesty.
 type RegSpec struct {
+	Inert     M // option members the verification must not depend on (rp.id, rp.name, user names, timeout, extensions, attestation preference)
 	Format    string
 	CredAlg   int
 	AttAlg    int // attestation / AIK key algorithm where the format has one
@@ -132,6 +133,9 @@ func (b *RegBuilt) Op() M {
 	}
 	if s.VerifyOpt != nil {
 		op["verifyOpts"] = s.VerifyOpt
+	}
+	if s.Inert != nil {
+		op["inert"] = s.Inert
 	}
 	if s.Get != "" {
 		op["get"] = s.Get
@@ -233,6 +237,9 @@ func newRegSpec(r *RNG, format string, credAlg int) *RegSpec {
 	if r.P(1, 3) {
 		s.CDExtra = benignCDExtra(r)
 	}
+	if r.P(1, 2) {
+		s.Inert = inertOptions(r, origin)
+	}
 	return s
 }
 
@@ -280,6 +287,15 @@ func buildRegistration(r *RNG, s *RegSpec) *RegBuilt {
 		case s.Format == "fido-u2f" && s.d("u2f.credNotEC2"):
 			cred = genKeyPair(r, pick(r, []int{algRS256, algEdDSA, algPS256}))
 			s.Algs = allAlgs
+		case s.d("key.noAlg"):
+			// the deviation is about EC2 keys (an OKP key without alg is Ed25519 by definition)
+			crv := 1
+			if s.Format != "fido-u2f" {
+				crv = 1 + r.Intn(3)
+			}
+			s.CredAlg = []int{0, algES256, algES384, algES512}[crv]
+			cred = genKeyPairOnCurve(r, s.CredAlg, crv, false)
+			s.Algs = allAlgs
 		case s.Format == "fido-u2f" && s.d("u2f.credWiderCurve"):
 			// an EC2 credential key whose coordinates do not fit the 32 bytes the signed data has room for
 			crv := 2 + r.Intn(2)
@@ -323,18 +339,42 @@ func buildRegistration(r *RNG, s *RegSpec) *RegBuilt {
 	if s.d("key.unsupported") {
 		key = pick(r, [][]byte{cborMap(cborInt(1), cborInt(4), cborInt(3), cborInt(-7)), cborMap(cborInt(1), cborInt(2), cborInt(3), cborInt(-7), cborInt(-1), cborInt(8), cborInt(-2), cborBytes(r.Bytes(32)), cborInt(-3), cborBytes(r.Bytes(32))), cborBytes([]byte{1, 2}), cborMap()})
 	}
+	if s.d("key.noAlg") && cred.Kind == "ec" {
+		// an EC2 key that declares no algorithm (member 3 absent, or 0): there is no algorithm that could appear in pubKeyCredParams
+		size := (cred.EC.Curve.Params().BitSize + 7) / 8
+		kvs := [][]byte{cborInt(1), cborInt(2), cborInt(-1), cborInt(int64(cred.Crv)), cborInt(-2), cborBytes(fixed(cred.EC.X, size)), cborInt(-3), cborBytes(fixed(cred.EC.Y, size))}
+		if r.Bool() {
+			kvs = append(kvs, cborInt(3), cborInt(0))
+		}
+		key = cborMap(kvs...)
+	}
 	var oversizeX []byte
 	if s.d("u2f.coordOversize") && cred.Kind == "ec" {
 		// a key that says P-256 but whose x coordinate needs 33 bytes (the parser does not compare coordinates with the field size)
 		oversizeX = append([]byte{byte(1 + r.Intn(255))}, fixed(cred.EC.X, 32)...)
 		key = cborMap(cborInt(1), cborInt(2), cborInt(3), cborInt(-7), cborInt(-1), cborInt(1), cborInt(-2), cborBytes(oversizeX), cborInt(-3), cborBytes(fixed(cred.EC.Y, 32)))
 	}
+	var dupKey *KeyPair
+	if s.d("u2f.dupCoordinates") && cred.Kind == "ec" {
+		// the COSE key repeats the coordinate labels: {.., -2: xA, -3: yA, -2: xB, -3: yB}; the key the library parses (and stores) has
+		// the FIRST pair; the statement below is made for the SECOND
+		dupKey = genKeyPairOnCurve(r, algES256, 1, false)
+		key = cborMap(cborInt(1), cborInt(2), cborInt(3), cborInt(-7), cborInt(-1), cborInt(1), cborInt(-2), cborBytes(fixed(cred.EC.X, 32)), cborInt(-3), cborBytes(fixed(cred.EC.Y, 32)),
+			cborInt(-2), cborBytes(fixed(dupKey.EC.X, 32)), cborInt(-3), cborBytes(fixed(dupKey.EC.Y, 32)))
+	}
 	ad := AuthDataSpec{RPIDHash: sha([]byte(hostOf(s.Origin))), Flags: s.Flags, Counter: s.Counter, AAGUID: s.AAGUID, CredID: s.CredID, Key: key, Ext: s.Ext}
 	if s.Format == "fido-u2f" {
 		ad.AAGUID = make([]byte, 16)
 	}
 	if s.d("ad.rpIdHash") {
-		ad.RPIDHash = variant(r, s.Var, [][]byte{sha([]byte(s.Origin)), sha([]byte("evil.example")), sha([]byte(hostOf(s.Origin) + ".")), r.Bytes(32), sha([]byte(strings.ToUpper(hostOf(s.Origin)) + "x")), make([]byte, 32)})
+		alts := [][]byte{sha([]byte(s.Origin)), sha([]byte("evil.example")), sha([]byte(hostOf(s.Origin) + ".")), r.Bytes(32), sha([]byte(strings.ToUpper(hostOf(s.Origin)) + "x")), make([]byte, 32)}
+		if s.Inert == nil {
+			s.Inert = inertOptions(r, s.Origin)
+		}
+		if id := unhx(s.Inert["rpId"].(string)); string(id) != hostOf(s.Origin) {
+			alts = append(alts, sha(id), sha(id)) // the hash of what options.rp.id says
+		}
+		ad.RPIDHash = variant(r, s.Var, alts)
 	}
 	if s.d("ad.noUP") {
 		ad.Flags &^= 0x01
@@ -489,6 +529,10 @@ func buildRegistration(r *RNG, s *RegSpec) *RegBuilt {
 			}
 			if oversizeX != nil {
 				copy(x, oversizeX) // the leading 32 of its 33 bytes
+			}
+			if dupKey != nil {
+				copy(x, fixed(dupKey.EC.X, 32))
+				copy(y, fixed(dupKey.EC.Y, 32))
 			}
 		}
 		msg := []byte{0}
